@@ -179,8 +179,14 @@ def run(
     rename: Optional[str] = None,
     keep_dir: bool = False,
     want_files: bool = True,
+    stdout_encoding: Optional[str] = None,
 ) -> Run:
-    """One in-process life of the real server on a fresh directory."""
+    """One in-process life of the real server on a fresh directory.
+
+    stdout_encoding None: `sys.stdout` is a StringIO (accepts any str).  Otherwise it is what a real process has: a text
+    layer that STRICTLY encodes to that encoding over a byte buffer (a character the encoding cannot represent -- e.g. a
+    lone surrogate for utf-8, any non-ASCII character for ascii -- raises UnicodeEncodeError out of the write, leaving the
+    bytes written so far); `raw` / `lines` are those bytes decoded with errors=backslashreplace."""
     m = ks()
     d = new_dir()
     populate(d, files, sdkconfig, aux)
@@ -189,7 +195,12 @@ def run(
     sink: list = []
     real_lib = m.kconfiglib
     old_in, old_out, cwd = sys.stdin, sys.stdout, os.getcwd()
-    out = io.StringIO()
+    buf: Optional[io.BytesIO] = None
+    if stdout_encoding is None:
+        out: Any = io.StringIO()
+    else:
+        buf = io.BytesIO()
+        out = io.TextIOWrapper(buf, encoding=stdout_encoding, errors="strict", newline="\n", write_through=True)
     try:
         os.chdir(d)
         m.kconfiglib = _LibProxy(real_lib, sink)
@@ -205,7 +216,15 @@ def run(
         sys.stdin, sys.stdout = old_in, old_out
         m.kconfiglib = real_lib
         os.chdir(cwd)
-    res.raw = unsubst(out.getvalue(), d)
+    if buf is None:
+        text = out.getvalue()
+    else:
+        try:
+            out.flush()
+        except (UnicodeError, ValueError):
+            pass
+        text = buf.getvalue().decode(stdout_encoding, "backslashreplace")
+    res.raw = unsubst(text, d)
     res.lines = res.raw.split("\n")
     if res.lines and res.lines[-1] == "":
         res.lines.pop()
@@ -288,8 +307,12 @@ def run_subprocess(
     default_version: Optional[int] = None,
     aux: Optional[Dict[str, Any]] = None,
     timeout: float = 60.0,
+    env_extra: Optional[Dict[str, str]] = None,
+    errors: Optional[str] = None,
 ) -> Dict[str, Any]:
     """`python -m kconfserver` over plain pipes.  default_version None omits --version.
+    env_extra: additional environment of the server process (e.g. PYTHONIOENCODING); errors: error handler the PARENT
+    uses to encode stdin / decode stdout (None = strict).
     Returns {"lines": [...], "raw": str, "rc": int, "stderr": str}; stdout is placeholder-normalised."""
     d = new_dir("sub")
     populate(d, files, sdkconfig, aux)
@@ -301,8 +324,10 @@ def run_subprocess(
     pp = env.get("PYTHONPATH", "")
     if common.REPO_ROOT not in pp.split(os.pathsep):
         env["PYTHONPATH"] = common.REPO_ROOT + (os.pathsep + pp if pp else "")
-    errf = open(os.path.join(d, "__stderr__"), "w+")
-    p = subprocess.Popen(cmd, stdin=subprocess.PIPE, stdout=subprocess.PIPE, stderr=errf, cwd=d, env=env, text=True)
+    if env_extra:
+        env.update(env_extra)
+    errf = open(os.path.join(d, "__stderr__"), "w+", errors="backslashreplace")
+    p = subprocess.Popen(cmd, stdin=subprocess.PIPE, stdout=subprocess.PIPE, stderr=errf, cwd=d, env=env, text=True, errors=errors)
     try:
         # the whole script is written at once and stdin closed: the server reads it line by line exactly as it would
         # from an interactive client, and a server that stops answering cannot dead-lock the harness
